@@ -58,10 +58,11 @@ class Source(LenaSequence):
             )
 
         if len(args) > 1:
-            self._tail = Sequence(*(self._data_seq[1:]))
-            # The tail has just set the static context of its elements
-            # without the elements that have no data (like SetContext),
-            # using what nested sequences remembered.
+            # The tail contains also the elements that have no data
+            # (like SetContext), so that no element gets (and derives
+            # a name from) a context made without them.
+            ind = [el is first for el in args].index(True)
+            self._tail = Sequence(*(args[:ind] + args[ind+1:]))
             # Set the context of the complete Source again.
             try:
                 self._set_context({})
